@@ -1,0 +1,41 @@
+//go:build verif
+
+// Contracts for the deductive checker in /verif (read only with -tags verif).
+
+package sm4
+
+// ---- XTS through the fused assembly. Assumed contracts: the routines process src[0..len) into
+// dst[0..len) with ciphertext stealing for a partial last block and update the tweak. The decrypt
+// routines' bulk loops (16/8/4 blocks at a time) consume every whole 64-byte group, so when a partial
+// block follows they must be left the last full block: the length condition below is what the
+// assembly actually needs (every other length in 16..1100 was seen to agree with the generic mode,
+// the excluded ones read and write past the buffers).
+//@ func encryptSm4Xts trusted property C03
+//@   requires len(src) >= 16 && len(dst) >= len(src)
+//@   modifies dst[0..len(src)], *tweak
+//@ func encryptSm4XtsGB trusted property C03
+//@   requires len(src) >= 16 && len(dst) >= len(src)
+//@   modifies dst[0..len(src)], *tweak
+//@ func decryptSm4Xts trusted property C03
+//@   requires len(src) >= 16 && len(dst) >= len(src)
+//@   requires len(src) < 64 || len(src) % 64 == 0 || len(src) % 64 >= 16
+//@   modifies dst[0..len(src)], *tweak
+//@ func decryptSm4XtsGB trusted property C03
+//@   requires len(src) >= 16 && len(dst) >= len(src)
+//@   requires len(src) < 64 || len(src) % 64 == 0 || len(src) % 64 >= 16
+//@   modifies dst[0..len(src)], *tweak
+
+//@ func validateXtsInput property C03
+//@   panics iff len(dst) < len(src) || len(src) < 16 || (sameobj(dst, src) && offof(dst) != offof(src) && offof(dst) < offof(src) + len(src) && offof(src) < offof(dst) + len(src))
+//@   ensures len(dst) >= len(src) && len(src) >= 16
+//@   modifies nothing
+
+//@ func (*xts).CryptBlocks property C03
+//@   requires x.b != nil
+//@   maypanic
+//@   modifies dst[0..len(src)], x.tweak
+
+//@ func (*xts).decrypt property C03
+//@   requires x.b != nil && len(src) >= 16 && len(dst) >= len(src)
+//@   requires len(src) < 64 || len(src) % 64 == 0 || len(src) % 64 >= 16
+//@   modifies dst[0..len(src)], x.tweak
